@@ -463,7 +463,7 @@ func errorTag(v variant, m *msggen.Msg) string {
 		t = "ce=none"
 	}
 	if captures {
-		if m.Spec.Enc == "deflate-zlib" {
+		if strings.HasPrefix(m.Spec.Enc, "deflate-zlib") {
 			t += "(zlib-wrapped)"
 		}
 		if m.Corrupt {
@@ -566,6 +566,8 @@ type replayCase struct {
 	Cut     int         `json:"cut,omitempty"`
 	Hist    *histCase   `json:"hist,omitempty"`  // history family
 	Stack   *stackCase  `json:"stack,omitempty"` // stack family
+	// Constructed: constructed family
+	Constructed *constructedCase `json:"constructed,omitempty"`
 }
 
 func martianTestContext(req *http.Request) (*martian.Context, func(), error) {
@@ -586,6 +588,10 @@ func putBuf(b []byte) { b = b[:cap(b)]; readBufs.Put(&b) }
 
 func main() {
 	mlog.SetLevel(mlog.Silent)
+	if os.Getenv("VERIF_C15_CHILD") == "constructed" {
+		runConstructedChild() // worker subprocess of the constructed family
+		return
+	}
 	// the live heap is a few messages per worker; collecting less often costs little memory and saves ~10% time
 	debug.SetGCPercent(400)
 	debug.SetMemoryLimit(8 << 30) // (collect harder instead of growing beyond 8 GiB: the 1 MiB class of thorough reached 12 GiB)
@@ -598,7 +604,7 @@ func main() {
 	specs = append(specs, msggen.EdgeSpace(tier)...)
 	nEdge := len(specs) - nBody - nHeader
 
-	parts := map[string]bool{"main": true, "fault": true, "history": true, "stack": true}
+	parts := map[string]bool{"main": true, "fault": true, "history": true, "stack": true, "constructed": true}
 	if p := os.Getenv("VERIF_C15_PARTS"); p != "" { // development aid: run only some families
 		parts = map[string]bool{}
 		for _, x := range strings.Split(p, ",") {
@@ -650,7 +656,7 @@ func main() {
 	}
 	pending := make([][]pendingViolation, len(specs))
 
-	if only != nil && (only.Part == "fault" || only.Part == "history" || only.Part == "stack") || !parts["main"] {
+	if only != nil && (only.Part == "fault" || only.Part == "history" || only.Part == "stack" || only.Part == "constructed") || !parts["main"] {
 		specs = nil
 	}
 	lib.Parallel(len(specs), func(i int) {
@@ -937,6 +943,18 @@ func main() {
 		}
 	}
 
+	if parts["constructed"] && (only == nil || only.Part == "constructed") {
+		for k, v := range runConstructedFamily(rep, only) {
+			rep.Coverage[k] = v
+			switch k {
+			case "constructed_cases":
+				runs += v
+			case "constructed_transitions":
+				transitions += v
+			}
+		}
+	}
+
 	var states int64
 	for _, n := range perFamily {
 		states += n
@@ -962,7 +980,7 @@ func main() {
 	rep.Coverage["violating_cases"] = violCount
 	rep.Coverage["states_per_family"] = perFamily
 	rep.Coverage["exhaustive"] = only == nil
-	rep.Coverage["rule"] = "cases = every message of msggen.BodySpace ∪ HeaderSpace ∪ EdgeSpace x every logger variant x every read mode (+ one skip-logging run per skipping variant, + one snapshot re-parse per messageview variant); states = distinct (message, logger variant) pairs; a message is non-trivial when its body is non-empty and it is chunked, close-delimited or content-coded (the paths where a logger can re-frame or mis-decode); failing-body family: every message of a sub-space (non-empty bodies x framings x {identity, gzip} x 3 content types) x fault kind {sender closes, connection error} x cut offsets (every offset of a body region of at most 96 bytes, else ±1 around each structural boundary) x 3 read modes x every logger variant; oracle: pass-through variants identical to the unlogged twin, buffering variants still fail and write only a prefix of the body; history family: every ordered pair (thorough: and triple) of messages over a pool of 11 x 7 logger set-ups (one logger object for all messages, one reused MessageView, mixed families) x forwarding order {fifo, lifo} x 2 read modes, all messages logged before the first is forwarded, a response that follows a request belongs to that request's exchange; oracle identity with the unlogged twins, and the reused view's last snapshot re-parses to the message it was loaded with last; stack family: every ordered pair of the 13 logger variants (thorough: and every triple over 6 representatives) attached to the same message of a sub-space x 2 read modes; oracle identity with the unlogged twin, no logger error, every logger recorded the exchange; sub-space big: bodies of 65537 / 131072 / 1 MiB bytes in one piece x 28 stacks {marbl alone, in-memory body -> marbl, snapshotting logger -> marbl [-> snapshotting logger]} x {Write, direct reads with 65537-byte and 1 MiB buffers}"
+	rep.Coverage["rule"] = "cases = every message of msggen.BodySpace ∪ HeaderSpace ∪ EdgeSpace x every logger variant x every read mode (+ one skip-logging run per skipping variant, + one snapshot re-parse per messageview variant); states = distinct (message, logger variant) pairs; a message is non-trivial when its body is non-empty and it is chunked, close-delimited or content-coded (the paths where a logger can re-frame or mis-decode); failing-body family: every message of a sub-space (non-empty bodies x framings x {identity, gzip} x 3 content types) x fault kind {sender closes, connection error} x cut offsets (every offset of a body region of at most 96 bytes, else ±1 around each structural boundary) x 3 read modes x every logger variant; oracle: pass-through variants identical to the unlogged twin, buffering variants still fail and write only a prefix of the body; history family: every ordered pair (thorough: and triple) of messages over a pool of 11 x 7 logger set-ups (one logger object for all messages, one reused MessageView, mixed families) x forwarding order {fifo, lifo} x 2 read modes, all messages logged before the first is forwarded, a response that follows a request belongs to that request's exchange; oracle identity with the unlogged twins, and the reused view's last snapshot re-parses to the message it was loaded with last; stack family: every ordered pair of the 13 logger variants (thorough: and every triple over 6 representatives) attached to the same message of a sub-space x 2 read modes; oracle identity with the unlogged twin, no logger error, every logger recorded the exchange; constructed family: 10 requests {GET,HEAD,DELETE,POST,PUT} and 10 responses {200 CL 0, 200 CL -1, 204, 304, 404} that were never on a wire, Body nil or http.NoBody, x every logger variant x {Write, http.Transport round trip against an in-memory origin (requests)} in a worker subprocess; oracle: Body after the logger == Body before, no logger error, forwarded bytes / origin's view / answer equal the unlogged twin's, a crash or hang of the worker is attributed to the running case; sub-space big: bodies of 65537 / 131072 / 1 MiB bytes in one piece x 28 stacks {marbl alone, in-memory body -> marbl, snapshotting logger -> marbl [-> snapshotting logger]} x {Write, direct reads with 65537-byte and 1 MiB buffers}"
 	rep.Coverage["bounds"] = fmt.Sprintf("tier %s: body space = {request POST, response 200} x sizes %v x {Content-Length, close (responses), chunked x chunk lists %v x trailers 0..2 (coinciding chunk lists emitted once)} x content codings %v x content types requests %v / responses %v; header space = requests {GET,POST,PUT} x HTTP/1.1,1.0 x query pool x cookie pool x repeated/empty header pool x {CL 0, CL 5, chunked 0, chunked 5}, responses {200,201,301,302,404,204,304} x versions x Set-Cookie pool x header pool x Location pool x {CL, chunked, close} x sizes {0,5}, 204/304 with and without Content-Encoding: gzip; edge space = request methods {GET,DELETE,PATCH,OPTIONS,PUT} with a body, content types {absent, unparseable, form with parameters / upper case / non-UTF-8 parameter name / unparseable, multipart with quoted / without boundary / empty and typed parts} x framings x {identity, gzip, zlib deflate, unknown coding}, non-UTF-8 bytes in a query value and a header value, 206 x codings x framings, 304 and answers to HEAD {200,404,301} with Content-Length / chunked framing headers and no body, Location on {200,201,404}, query strings with '=' inside values and names / empty names / flags, requests whose parsed form has Transfer-Encoding chunked AND a content length, or a body of unknown length (neither); read-buffer sizes {1 (61 for bodies > 4200 bytes, 1021 for bodies > 70000 bytes), 511, 4097, 65536, bytes.Buffer growth, bufio 4096}",
 		tier, sizesFor(tier), chunkingsFor(tier), msggen.Encodings, msggen.RequestCTs, msggen.ResponseCTs)
 	rep.Assumptions = []string{
